@@ -1,5 +1,5 @@
 """Per-property job lists (bounds per tier) and the texts that go into the evidence."""
-from props_front import POOL
+from props_front import POOL, c09_shapes
 
 COMMON_ASSUME = [
     'input strings are well-formed UTF-8 (Rust &str invariant), constrained by the exact RFC 3629 formula',
@@ -61,6 +61,54 @@ def jobs_c08(tier, seed):
     return jobs
 
 
+def jobs_c09(tier, seed):
+    jobs = []
+    if tier == 'quick':
+        shapes = c09_shapes(2, 2, seed, 260)
+        pairs = [POOL[0]]
+        extra = c09_shapes(1, 3, seed, 0)
+    else:
+        shapes = c09_shapes(2, 3, seed, 1500)
+        pairs = [POOL[0], POOL[1], POOL[6]]
+        extra = []
+        import random
+        three = c09_shapes(3, 1, seed, 0)
+    for ds, de in pairs:
+        for i, sh in enumerate(shapes):
+            lab = ' '.join((a['kind'][0] + str(a['sep_len']) + (f"e{a['eq_l']}{a['eq_r']}v{a['val_len']}" if a['kind'] != 'bare' else '')) for a in sh['attrs'])
+            jobs.append(dict(harness='c09_grammar', params=dict(sh, ds=ds, de=de), label=f'tag {ds!r} pad{sh["pad_l"]} [{lab}]'))
+    return jobs
+
+
+def jobs_c10(tier, seed):
+    lens = range(1, 5) if tier == 'quick' else range(1, 7)
+    return [J('c10_pairing', f'slot sequences of length {L}', len=L) for L in lens]
+
+
+def jobs_c01_front(tier, seed):
+    jobs = []
+    if tier == 'quick':
+        pairs, nmax, bmax = [POOL[0], POOL[6], POOL[7]], 6, 4
+        sym = [(1, 1, 4), (2, 2, 4)]
+    else:
+        pairs, nmax, bmax = POOL, 9, 6
+        sym = [(1, 1, 6), (2, 2, 6), (1, 2, 6), (2, 1, 6), (3, 3, 5)]
+    for ds, de in pairs:
+        for n in range(0, nmax + 1):
+            jobs.append(J('c01_front', f'front U({n}) ds={ds!r} de={de!r}', n=n, ds=ds, de=de))
+    for ds, de in ([POOL[0], POOL[1]] if tier == 'quick' else POOL):
+        for b in range(1, bmax + 1):
+            jobs.append(J('c01_front', f'tag body U({b}) + tail U(1) ds={ds!r} de={de!r}', body=b, tail=1, ds=ds, de=de))
+    for a, b, nmax2 in sym:
+        for n in range(1, nmax2 + 1):
+            jobs.append(J('c01_front', f'front U({n}) symbolic delimiters |ds|={a}B |de|={b}B', n=n, ds_len=a, de_len=b))
+    return jobs
+
+
+def jobs_c01(tier, seed):
+    return jobs_c01_front(tier, seed)
+
+
 PROPS = {
     'C07': dict(
         jobs=jobs_c07, tv=('front',),
@@ -73,5 +121,23 @@ PROPS = {
         explanation='tokenize vs. a textbook leftmost-shortest scan written from the statement; both run on the same symbolic bytes, '
                     'z3 decides equality of the span lists on every path. U(N) for short delimiters, hole templates for the long '
                     'README-style delimiters (holes may contain delimiter characters), symbolic delimiters.',
+        assumptions=COMMON_ASSUME),
+    'C09': dict(
+        jobs=jobs_c09, tv=('front',),
+        explanation='tokenize + element_parser::parse on tags generated from the grammar: the shape (number/kind of attributes, padding) is '
+                    'enumerated, every name / value / separator / quote byte is symbolic (separators range over blank and line break, values '
+                    'over every UTF-8 string without the closing quote and the end delimiter); z3 decides name and attribute spans.',
+        assumptions=COMMON_ASSUME + ['names exclude blank, tab, CR, LF, =, quotes, / and the first byte of either delimiter']),
+    'C10': dict(
+        jobs=jobs_c10, tv=('front',),
+        explanation='tokenize + parser::parse on every sequence of L slots over {open x, open y, close x, close y, close z, text} with x, y, z '
+                    'symbolic one-letter names (equal or distinct: same-name nesting and crossing tags are inside one query) against the '
+                    'stack rule of the statement; also: every token exactly once, in order, in the flattened tree.',
+        assumptions=COMMON_ASSUME + ['delimiters < and >; names are single ASCII lower-case letters']),
+    'C01': dict(
+        jobs=jobs_c01, tv=('front',),
+        explanation='No feasible path reaches a panic terminator (overflow checks on), a panicking std model call (slice/str index, unwrap, '
+                    'replace_range, explicit panic!) or the step budget: tokenize, element_parser::parse on every tag token and parser::parse '
+                    'on every valid UTF-8 source of N bytes for the delimiter pool and for symbolic delimiters; tag bodies U(N).',
         assumptions=COMMON_ASSUME),
 }
